@@ -1,5 +1,5 @@
 """C16 - A* family; see astar_checks.py"""
-import astar_checks
+import astar_checks, glue_checks
 
 RULES = {
     '01': 'random sentences (n<=4 quick / 5 thorough) over random head-uniform table grammars with acyclic unary rules and over the real en/ja rule functions with a small lexicon, dyadic score grid, penalties {0,1/8,1/4}, pruning, beta, root sets, step budgets; non-trivial = the search popped more items than the sentence has tokens; distinct by (matrices, roots, configuration)',
@@ -8,6 +8,7 @@ RULES = {
 
 def run(ctx):
     astar_checks.run_family(ctx, 'c16', 'P_C16')
+    glue_checks.run_glue(ctx, 'c16', 60 if ctx.quick else 900)
     ctx.trusted += ['implementation-level model coq/AStarImpl.v (tied to parsing.h by trace validation: every pop, its in/out score, span, head, the status, the goal derivations and scores of each run are accepted by the model inside coqc)',
                     'harness/driver.cpp + depccg_verif_rt.py (ctypes bridge, compiled against the repository header on every run) and the DEPCCG_VERIF pop hook',
                     'float32 arithmetic is exact on the dyadic score grid used (scores k/8, |k| small); rounding on arbitrary reals is not modelled']
